@@ -728,6 +728,9 @@ func init() {
 		},
 
 		// strings
+		// strings are immutable values in the engine: a clone is the string itself
+		"internal/stringslite.Clone": func(e *Exec, a []Value) (Value, bool) { return a[0], true },
+		"strings.Clone":              func(e *Exec, a []Value) (Value, bool) { return a[0], true },
 		"strings.TrimSpace": func(e *Exec, a []Value) (Value, bool) {
 			s := a[0].(Str)
 			if isC(s) {
